@@ -221,9 +221,18 @@ impl Monitor for C16 {
                 owned_v2(&b, rec);
             }
             "c16-tlv" => {
-                let names = ["tlv-wf", "tlv-sized", "tlv-rand", "tlv-small"];
-                let name = names[(idx % 4) as usize];
-                let s = tlv_case(name, if name == "tlv-small" { idx % spec::v2::small_section_count(8) } else { idx }, seed);
+                let names = ["tlv-wf", "tlv-sized", "tlv-rand", "tlv-small", "tlv-types", "tlv-lens"];
+                let name = names[(idx % 6) as usize];
+                let s = tlv_case(
+                    name,
+                    match name {
+                        "tlv-small" => idx % spec::v2::small_section_count(8),
+                        "tlv-types" => (idx / 6) % (256 * (3 + spec::v2::TYPE_LENS.len() as u64)),
+                        "tlv-lens" => (idx / 6) % (spec::v2::len_ladder().len() as u64 * 4),
+                        _ => idx,
+                    },
+                    seed,
+                );
                 rec.case(hash_bytes(&s), s.len() >= 3);
                 rec.class("oracle:tlv-section", || show(&s, 32));
                 owned_tlv(&s, rec);
